@@ -425,7 +425,8 @@ class Interp:
     def s_FunctionDef(self, n, st, fx):
         fi = FuncInfo(n, fx.module, cls=None, parent=fx.func)
         # one identity per creation: what the closure captured is what the enclosing frame held on this very path
-        cid = (id(n), st.uid())
+        self._closure_seq = getattr(self, "_closure_seq", 0) + 1
+        cid = (id(n), st.uid(), self._closure_seq)        # (unique over all the runs of this engine: state uids restart with every run)
         st.env[n.name] = ("closure", fi, cid)
         self._closure_env = getattr(self, "_closure_env", {})
         self._closure_env[cid] = (dict(st.env), fx.selfterm, fi)
